@@ -22,7 +22,7 @@ pub fn claim_from(v: &Value) -> ClaimData {
         _ => panic!("claim kind"),
     }
 }
-fn ctype(s: &str) -> ClaimType {
+pub fn ctype(s: &str) -> ClaimType {
     match s {
         "h" => ClaimType::Hashed,
         "n" => ClaimType::Number,
@@ -32,7 +32,7 @@ fn ctype(s: &str) -> ClaimType {
         _ => ClaimType::Unknown,
     }
 }
-fn validator(v: &Value) -> ClaimValidator {
+pub fn validator(v: &Value) -> ClaimValidator {
     match v["k"].as_str().unwrap() {
         "len" => ClaimValidator::Length { min: v["min"].as_u64().map(|x| x as usize), max: v["max"].as_u64().map(|x| x as usize) },
         "range" => ClaimValidator::Range {
